@@ -9,6 +9,28 @@ import z3
 U8, U16, U32, U64, U128 = 2 ** 8, 2 ** 16, 2 ** 32, 2 ** 64, 2 ** 128
 INTMAX = {"u8": U8, "u16": U16, "u32": U32, "u64": U64, "u128": U128, "usize": U64}
 SINT = {"i8": 8, "i16": 16, "i32": 32, "i64": 64, "i128": 128, "isize": 64}
+UBITS = {"u8": 8, "u16": 16, "u32": 32, "u64": 64, "u128": 128, "usize": 64}
+
+
+def int_bits(ty):
+    ty = (ty or "").strip()
+    return UBITS.get(ty) or SINT.get(ty)
+
+
+def int_bounds(ty):
+    """(lo, hi) with lo <= v < hi for a primitive integer type"""
+    ty = ty.strip()
+    if ty in UBITS: return 0, 2 ** UBITS[ty]
+    b = SINT[ty]
+    return -(2 ** (b - 1)), 2 ** (b - 1)
+
+
+def wrap_int(v, ty):
+    """two's-complement wrap of a mathematical integer into a primitive type (python int or z3 Int)"""
+    lo, hi = int_bounds(ty)
+    m = hi - lo
+    if isinstance(v, int): return (v - lo) % m + lo
+    return (v - lo) % m + lo
 
 
 class Struct:
